@@ -305,6 +305,9 @@ func (x *searcher) checkGC(s, n *State, o buildOpts, res *buildResult) {
 	if !s.V.Other {
 		n.M.T[tOther] = &TModel{SawLatest: map[string]bool{}}
 	}
+	if !s.V.OtherAll {
+		n.M.T[tOtherAll] = &TModel{SawLatest: map[string]bool{}}
+	}
 	if x.prop != "C14" {
 		return
 	}
